@@ -288,6 +288,12 @@ func runC18(k *kernel.K) {
 			e.resp.Header = append(e.resp.Header, wire.HF{Name: "X-Large", Value: strings.Repeat("h", 4500+w.Draw(3000))})
 			k.Probe("response_head_spans_writes")
 		}
+		if w.Chance(1, 8) {
+			// the client asks to close after this exchange (the origin does not repeat it): the
+			// proxy adds "Connection: close" to the head it writes - bytes of the head, not of the body
+			e.spec.Close = true
+			k.Probe("client_asks_to_close")
+		}
 		exs[e.id] = e
 		cl.Add(e.spec)
 		before := len(*stamps)
